@@ -240,12 +240,15 @@ def run(ctx):
                     # raw typed text: phonetic term parameter / fixed raw-key field
                     if fk_is_phonetic_builder(prog, p.body.key) and pe.k == "arg" and _is_str_param(prog, p.body.key, pe.a[0]):
                         cls = "typed"
+                    cv_ = builders.creator_value(prog, p)
+                    if cls is None and cv_ is not None and cv_[0].k == "arg" and fk_is_phonetic_builder(prog, cv_[1].key) and _is_str_param(prog, cv_[1].key, cv_[0].a[0]):
+                        cls = "typed"          # the same, built inside a closure from the captured parameter
                     sp = self_path(pe)
                     if sp and (prog.fns[p.body.key].get("impl") or {}).get("self") == fx and sp[0] in roles[fx]["raw"]:
                         cls = "typed"
             if cls is None:
                 continue
-            guards = builders.effective_guards(prog, p.outer_body, p.outer_bb)
+            guards = builders.effective_guards(prog, p.outer_body, p.outer_bb, closure=getattr(p, 'closure', None))
             key = "%s:%s@%s#%d" % (cls, p.variant or "?", fk.split("::")[-1], sum(1 for q in evs[:evs.index(p)] if q.variant == p.variant))
             site = site_of(p.outer_body, p.outer_bb)
             not_ansi = builders.guarded(guards, "Config::get_ansi_encoding", False)
